@@ -285,7 +285,7 @@ def gen(ctx):
     # --- signature algorithm identifier as a dimension: inner x outer x signature bits, on certificates, requests, CRLs
     for kind in ("cert", "req", "crl"):
         for inner in ((0, 2, 3, 4) if kind != "req" else (0,)):
-            for outer in range(8):
+            for outer in range(9):
                 for mode in ("good", "random", "corrupt"):
                     add("sigalg %s %d %d %s" % (kind, inner, outer, mode), "sigalg:%s:inner%d:outer%d:%s" % (kind, inner, outer, mode))
     # --- x509_cert_check_crl through its own entry point (HTTP transport scripted): clean exactly when fetched, fresh,
@@ -314,6 +314,9 @@ def gen(ctx):
     # --- issuing functions keep no shared scratch state: two threads, different inputs, results compared with the solo run
     for kind in ("aki", "ski", "eku", "crldp", "aia", "nc", "name"):
         add("threads %s %d" % (kind, 30000 if not thorough else 300000), "threads:%s" % kind)
+    # --- buffer reuse: the CA certificate buffer is reloaded in place with a same-length certificate of another name and key
+    for order in ("12", "21", "1212", "2121", "1122", "1", "2", "12121212"):
+        add("reusebuf %s" % order, "reusebuf:%s" % ("alternating" if len(order) > 1 else "single"))
     # --- every single-bit modification of an issued object must fail verification
     step = 3 if not thorough else 1
     flips = []
@@ -347,6 +350,74 @@ def build_net_harness(variant="asan"):
     return (out if rc == 0 else None), log + o
 
 
+CERT_BUILDERS = ["aki", "daki", "ski", "skiex", "ku", "cp", "pm", "san", "ian", "sda", "nc", "pc", "bc", "eku", "crldpex", "crldp", "iap", "fcrl", "aia", "seq"]
+CRL_BUILDERS = ["aki", "daki", "ian", "crlnumex", "crlnum", "delta", "idp", "fcrl", "aia"]
+
+
+def builder_order_cases(ctx, exe, variant):
+    """every extension builder declared in x509_ext.h / x509_crl.h: alone, and as 1st / 2nd / last of lists whose order is
+    rotated by the seed; the list must be the concatenation of the solo encodings, parse element by element, and survive a
+    certificate / CRL.  Builders found in the headers but unknown to the harness are reported."""
+    import re
+    r = ctx.rng
+    declared = set()
+    for h in ("x509_ext.h", "x509_crl.h"):
+        try:
+            src = open(os.path.join(core.REPO, "include", "gmssl", h)).read()
+        except OSError:
+            continue
+        declared |= set(re.findall(r"\bint\s+(x509_(?:crl_)?exts_add_\w+|x509_crl_entry_exts_to_der|x509_\w+_ext_to_der)\s*\(", src))
+    # x509_exts_add_crl_distribution_points_ex: call it the way the installed header declares it
+    hdr = ""
+    try:
+        hdr = open(os.path.join(core.REPO, "include", "gmssl", "x509_ext.h")).read()
+    except OSError:
+        pass
+    m = re.search(r"x509_exts_add_crl_distribution_points_ex\([^;]*?maxlen,\s*int\s+(\w+),\s*int\s+(\w+)", hdr)
+    cert_builders = [("crldpexh" if (n == "crldpex" and m and m.group(1) == "critical") else n) for n in CERT_BUILDERS]
+    covered, _ = core.run_lines(exe, ["builders"], shards=1)
+    covered = set(covered[0].split())
+    for name in sorted(declared - covered):
+        ctx.violation("coverage:extension-builder-not-exercised:" + name, "the header declares the extension builder %s, which the builder-order harness does not know: add it to props/C15/harness.c add_builder()" % name,
+                      {"kind": "coverage", "builder": name}, False)
+    solo_ops = ["extsolo c %s.%d" % (n, v) for n in cert_builders for v in (0, 1)] + ["extsolo r %s.%d" % (n, v) for n in CRL_BUILDERS for v in (0, 1)]
+    solo_out, _ = core.run_lines(exe, solo_ops, shards=1)
+    solo = {}
+    for op, out in zip(solo_ops, solo_out):
+        w = op.split()
+        ctx.cov["evaluations"] += 1
+        if out.startswith("ERR") or out.startswith("FAULT"):
+            fn = {"crldpex": "x509_exts_add_crl_distribution_points_ex", "crldpexh": "x509_exts_add_crl_distribution_points_ex"}.get(w[2].split(".")[0], w[2])
+            ctx.violation("builder:%s:fails-as-declared" % fn, "extension builder `%s` called as its public prototype declares fails [%s]: %s" % (op, variant, out),
+                          {"kind": "failing-input", "op": op, "impl": out, "expected": "an Extension", "variant": variant}, True)
+        else:
+            solo[(w[1], w[2])] = out
+            ctx.cell("extsolo:%s:%s" % (w[1], w[2].split(".")[0]))
+    cases = []
+    for kind, names in (("c", cert_builders), ("r", CRL_BUILDERS)):
+        avail = [n for n in names if (kind, n + ".0") in solo and (kind, n + ".1") in solo]
+        for n in avail:
+            others = [o for o in avail if o != n]
+            for pos in ("first", "second", "last", "only"):
+                for rep in range(2):
+                    r.shuffle(others)
+                    k = r.range(2, 5)
+                    rest = ["%s.%d" % (o, r.below(2)) for o in others[:k]]
+                    me = "%s.%d" % (n, r.below(2))
+                    lst_ = {"first": [me] + rest, "second": rest[:1] + [me] + rest[1:], "last": rest + [me], "only": [me]}[pos]
+                    expect = "".join(solo[(kind, t)] for t in lst_)
+                    cases.append(("extlist %s %s %s" % (kind, ",".join(lst_), expect), "extlist:%s:%s:%s" % (kind, n, pos)))
+        # all builders of the kind in one list, order rotated by the seed
+        allb = ["%s.%d" % (n, r.below(2)) for n in avail]
+        r.shuffle(allb)
+        cases.append(("extlist %s %s %s" % (kind, ",".join(allb), "".join(solo[(kind, t)] for t in allb)), "extlist:%s:all" % kind))
+    for reason in (-1, 0, 1, 6, 10):
+        for date in (-1, 1600000000, 2600000000):
+            for iss in ("-", "310b3009060355040a0c024341"):
+                cases.append(("entryexts %d %d %s" % (reason, date, iss), "entryexts:reason%s:date%s:issuer%s" % ("absent" if reason < 0 else "set", "absent" if date < 0 else "set", "absent" if iss == "-" else "set")))
+    return cases
+
+
 def oracle_flip(a):
     return None if a == "0" else "a single-bit modification of an issued object still verifies: " + a
 
@@ -375,6 +446,7 @@ def run(ctx):
                               oracle=lambda line, a, b: oracle_flip(a))
             continue
         core.differential(ctx, cases, exe, model, variant=v)
+        core.differential(ctx, builder_order_cases(ctx, exe, v), exe, model, variant=v)
         if v == "asan":
             # x509_cert_check_crl once more, this time through the library's own HTTP client and a loopback server thread
             netexe, nlog = build_net_harness(v)
